@@ -1428,6 +1428,25 @@ class Walker:
                 outs.extend(self.block(n.orelse, s))
             else:
                 outs.append((s, k, p))
+        # resource exhaustion (deep recursion, memory) can strike inside any call: a handler written
+        # for it is reachable, from a state in which nothing of the body is known to have happened
+        for h in n.handlers:
+            if h.type is None:
+                continue
+            names = self.handler_classes(h, st)
+            res_names = [nm for nm in names if nm in ("RecursionError", "MemoryError")]
+            if res_names and any(isinstance(x, ast.Call) for b in n.body for x in ast.walk(b)):
+                hs = st.copy()
+                x = Exc(res_names[0], [self.site(n)], (), "resource", "resource exhaustion inside the try block")
+                hs.env["$exc"] = x
+                if h.name:
+                    hs.env[h.name] = ("excobj", res_names[0])
+                hs.ev("caught", self.site(h), res_names[0], tuple(names), self.site(n), (), (self.site(n),))
+                for s2, k2, p2 in self.block(h.body, hs):
+                    s2.env.pop("$exc", None)
+                    if h.name:
+                        s2.env.pop(h.name, None)
+                    outs.append((s2, k2, p2))
         if n.finalbody:
             res = []
             for s, k, p in outs:
@@ -1501,6 +1520,19 @@ class Walker:
         b = s.copy()
         b.add(("falsy", t))
         return [(a, "true", None), (b, "false", None)]
+
+    def exhaust(self, t, s):
+        """a consumer ran the generator expression `t` to its end: every element was evaluated"""
+        if isinstance(t, tuple) and len(t) == 5 and t[0] == "comp" and t[1] == "gen":
+            hit = self.eng.__dict__.get("_comp_store", {}).get(("body", t[4]))
+            if hit is not None:
+                base0, keepf = hit
+                base = self._comp_base(t)
+                if base0 != base:
+                    from .terms import _subst
+
+                    keepf = _subst(keepf, {base0: base})
+                s.add(("forall", base, t[4], keepf))
 
     def _comp_lookup(self, what, comp):
         """per-element facts of the comprehension a comp term came from - also when the
@@ -2118,11 +2150,15 @@ class Walker:
                 self.eng.__dict__.setdefault("_comp_store", {})[("alts", loop_id)] = (it, (frozenset(truthy_alts), frozenset(falsy_alts)))
             s2 = s.copy()
             s2.ev("loop", self.site(e), base, el, tuple(body_paths))
-            if kind != "gen" and not g.ifs and body_paths:
+            if not g.ifs and body_paths:
                 allf = merge_facts([bp[1] for bp in body_paths])
                 keepf = frozenset(f for f in allf if _mentions(f, el))
-                if keepf:
+                if keepf and kind != "gen":
                     s2.add(("forall", base, loop_id, keepf))
+                elif keepf:
+                    # a generator expression is lazy: the facts hold once something has consumed
+                    # it to the end (see exhaust())
+                    self.eng.__dict__.setdefault("_comp_store", {})[("body", loop_id)] = (base, keepf)
             outs.append((s2, "val", ("comp", kind, it, elt_term if elt_term is not None else Fresh("elt"), loop_id)))
         return outs
 
